@@ -233,7 +233,11 @@ fn interpret(c: &IterCase, strict_only: bool, st: &mut Stats) -> Result<Outcome,
                     tainted_mid = true;
                     classes.push("removal issued mid-promotion");
                 }
-                if mv.promo.is_some() && c.avoid {
+                // recorded finding (i): remove_move ignores the promotion piece of its argument, so any
+                // argument whose source and destination are those of pending promotions (whatever its
+                // piece field says, including none) makes all of them disappear
+                let hits_promotions = mv.promo.is_some() || cands.iter().any(|cd| cd.r.iter().any(|x| x.from == mv.from && x.to == mv.to && x.promo.is_some()));
+                if hits_promotions && c.avoid {
                     if !st.frozen {
                         st.class("skipped by construction: remove_move with a promotion argument (recorded finding i)");
                     }
@@ -247,7 +251,7 @@ fn interpret(c: &IterCase, strict_only: bool, st: &mut Stats) -> Result<Outcome,
                     let mut a = cd.clone();
                     a.r.retain(|x| *x != mv);
                     next_cands.push(a);
-                    if mv.promo.is_some() && !strict_only && next_cands.len() < 8 {
+                    if hits_promotions && !strict_only && next_cands.len() < 8 {
                         // recorded finding (i): all four promotions of that destination disappear
                         let mut b = cd.clone();
                         b.r.retain(|x| !(x.from == mv.from && x.to == mv.to));
@@ -261,8 +265,8 @@ fn interpret(c: &IterCase, strict_only: bool, st: &mut Stats) -> Result<Outcome,
                 if was_pending_everywhere && !ret {
                     diverge!("remove_move({mv}) returned false although the move was still pending");
                 }
-                if mv.promo.is_some() {
-                    classes.push("remove_move with a promotion argument");
+                if hits_promotions {
+                    classes.push("remove_move aimed at a promotion destination");
                 }
                 if post_next {
                     mutated_after_next = true;
